@@ -220,6 +220,53 @@ R.contract(
 )
 R.spec_funcs["overridden_header"] = lambda it, k: it.ghost["entries"] is not None and __import__("pyvc.ops", fromlist=["z_or"]).z_or(False, *[__import__("pyvc.ops", fromlist=["eq"]).eq(k, k2) for k2 in it.ghost["entries"]["headers"]])
 
+# ------------------------------------------------------------------------------------------------- coverage phase: every attached case carries the overrides and the credentials
+BLD_ = "schemathesis.generation.hypothesis.builder:"
+CovCase = Obj("spec:CovCase", media_type=OneOf(NoneT, Str), query=OneOf(NoneT, KeyedDict(Str, Str, sizes=(0, 1))), headers=NoneT,
+              cookies=NoneT, path_parameters=NoneT, body=Opq("Body"))
+R.contract(BLD_ + "_iter_coverage_cases", args={"operation": Opq("Any"), "generation_modes": Opq("Any"), "unexpected_methods": Opq("Any")}, returns=ListOf(CovCase, [0, 1, 2]), trusted=True,
+           effects={"cases": "list_of_(result)"}, note="C03 contracts: the coverage cases of the operation")
+R.spec_funcs["list_of_"] = lambda it, xs: list(it.iterate_all(xs))
+R.contract(BLD_ + "adjust_urlencoded_payload", args={"case": Opq("Any")}, returns=NoneT, trusted=True, note="C06: form payload encoding")
+R.contract("schemathesis.auths:set_on_case", args={"case": Opq("Any"), "context": Opq("Any"), "auth_storage": Opq("Any")}, returns=NoneT, trusted=True,
+           effects={"authed": "ghost('authed') + [case]"}, note="applies the configured auth provider to the case (own contracts: AuthStorage)")
+R.contract("schemathesis.auths:AuthContext", abstract_only=True, args={}, returns=Opq("AuthContext"), note="dataclass constructor")
+
+
+def _cov_example(it, args, kw):
+    from pyvc.interp import BuiltinFn
+
+    case = kw["case"]
+
+    def deco(it2, a, k):
+        it2.ghost["attached"] = it2.ghost["attached"] + [case]
+        return a[0]
+
+    return BuiltinFn("hypothesis.example(...)", deco)
+
+
+R.extern["hypothesis.example"] = _cov_example
+R.nominal_methods["spec:CovTransport"] = {"get_first_matching_media_type": lambda it, obj, a, k: OneOf(NoneT, Opq("Serializer")).make(it, it.path.fresh("serializer"))}
+R.module_values["schemathesis.specs.openapi.constants:LOCATION_TO_CONTAINER"] = {"path": "path_parameters", "query": "query", "header": "headers", "cookie": "cookies", "body": "body"}
+Overrides = DictOf(optional={"query": KeyedDict(Str, Str, sizes=(1,)), "headers": KeyedDict(Str, Str, sizes=(1,)), "generation_config": Opq("Any")})
+R.contract(
+    BLD_ + "add_coverage",
+    prop="C14",
+    args={"test": Opq("TestFunction"), "operation": Obj("spec:CovOperation", app=NoneT, schema=Obj("spec:CovSchema", transport=Obj("spec:CovTransport"))), "generation_modes": Opq("Modes"),
+          "auth_storage": OneOf(NoneT, Opq("AuthStorage")), "as_strategy_kwargs": Overrides, "unexpected_methods": NoneT},
+    ghost={"cases": [], "authed": [], "attached": []},
+    ensures={
+        # every coverage-phase request carries the configured credentials and the configured overrides
+        "every_attached_case_got_the_credentials": "all(any(a is c for a in ghost('authed')) for c in ghost('attached'))",
+        "every_attached_case_carries_the_overrides": "all(all(getattr_of(c, loc) is not None and all(k in getattr_of(c, loc) and getattr_of(c, loc)[k] == as_strategy_kwargs[loc][k] for k in as_strategy_kwargs[loc]) "
+                                                     "for loc in ('query', 'headers') if loc in as_strategy_kwargs) for c in ghost('attached'))",
+        "only_generated_cases_are_attached": "all(any(a is c for c in ghost('cases')) for a in ghost('attached'))",
+    },
+    bounded_note="up to 2 coverage cases, one override per location",
+    replayable=False,
+    max_paths=20000,
+)
+
 LEVEL_TEXT = ("Deductive: header precedence, override restriction (loop invariant over any number of parameters) and the token cache's double-checked lock "
               "under an explicit rely condition (cache havoced at lock acquisition) are postconditions on the real functions, discharged by z3.")
 LEVEL_NOTE = "Trusted: CaseInsensitiveDict, threading.Lock as synchronisation point (rely), frozen timer, pyvc semantics (E9). Free interleavings are not decided."
